@@ -24,8 +24,11 @@ structure Ext where
   parseFloat : Bytes → Nat → Option (Option Nat)
   /-- UTC offset (seconds east) of time.Local at a Unix second -/
   zoneOffset : Int → Option Int
+  /-- json.Marshal of a float64 / float32 given by its bits and size (64 | 32):
+      `none` = not supplied; `some none` = marshal error (NaN, ±Inf) -/
+  jsonFloat : Nat → Nat → Option (Option Bytes) := fun _ _ => none
 
-def Ext.empty : Ext := ⟨fun _ _ => none, fun _ _ => none, fun _ => none⟩
+def Ext.empty : Ext := { fmtFloat := fun _ _ => none, parseFloat := fun _ _ => none, zoneOffset := fun _ => none }
 
 /-- The tables a run works with (Gen.CastTable of the current source). -/
 structure CastTables where
@@ -196,6 +199,11 @@ def evalE (T : CastTables) (ext : Ext) (val : Dyn) (parsed : Dyn) : E → Outcom
   | .unix e =>
     match evalE T ext val parsed e with
     | .ok (.time t) => .ok (.int .i64 t.sec)
+    | .ok _ => .err .ext
+    | o => o
+  | .year e =>
+    match evalE T ext val parsed e with
+    | .ok (.time t) => .ok (.int .int (Time.year t))
     | .ok _ => .err .ext
     | o => o
   | .ne0 e =>
